@@ -9,7 +9,9 @@ class SourceCode(Sequence):
 
     @classmethod
     def from_file(cls, filename):
-        with open(filename) as file:
+        # HiD source is UTF-8 (string literals are UTF-8 byte strings), whatever
+        # the locale of the process running the compiler says
+        with open(filename, encoding='utf-8') as file:
             return cls(filename, [line.removesuffix('\n') for line in file])
 
     @classmethod
